@@ -401,8 +401,15 @@ class Gen:
           return ('fun', 'Size', [('var', r.choice(lists))])
         return ('fun', r.choice(['Greatest', 'Least']), [self.expr_of('int', bound, depth - 1), self.expr_of('int', bound, depth - 1)])
       if k < 0.8 and self.p('func_calls') and self.funcs('int'):
+        last = getattr(self, 'last_call', None)
+        if last is not None and self.p('dup_calls') and all(v in bound for v in last[1]):
+          return last[0]        # the same call written twice in one rule
         f = r.choice(self.funcs('int'))
-        return ('call', f['name'], [(i, self.expr_of(t, bound, depth - 1)) for i, t in enumerate(f['argtypes'])])
+        e = ('call', f['name'], [(i, self.expr_of(t, bound, 0)) for i, t in enumerate(f['argtypes'])])
+        vs = set()
+        _rename_vars(e, lambda v: vs.add(v) or v)
+        self.last_call = (e, vs)
+        return e
       recs = [(v, t) for v, t in bound.items() if isinstance(t, tuple) and t[0] == 'rec']
       if k < 0.9 and recs:
         v, t = r.choice(recs)
@@ -691,6 +698,26 @@ class Gen:
       sig = dict(sig, bagcols=set(sig.get('bagcols', ())) | bagcols)
     return {'head': head, 'distinct': sig['distinct'], 'body': body, 'sig': sig}
 
+  def gen_table_func(self, name):
+    """Functional predicate with a finite extension: G(a) = b :- T(a, b); several values per argument and
+    duplicate rows are possible, so every occurrence of a call multiplies the derivations."""
+    r = self.r
+    cands = [d for d in self.prog if d.get('ext') and len(d['types']) >= 2 and
+             all(t in ('int', 'str') for t in d['types'].values())]
+    if not cands:
+      return None
+    d = r.choice(cands)
+    fs = list(d['types'].items())
+    (fa, ta), (fb, tb) = fs[0], fs[1]
+    if tb != 'int':
+      return None
+    head = [(0, ('e', ('var', 'a'))), ('logica_value', ('e', ('var', 'b')))]
+    body = ('and', [('c', ('atom', d['name'], [(fa, ('var', 'a')), (fb, ('var', 'b'))]))])
+    g = {'name': name, 'kind': 'table', 'rules': [{'head': head, 'distinct': False, 'body': body}],
+         'types': {0: ta, 'logica_value': tb}, 'argtypes': [ta], 'functional': True, 'bagcols': set()}
+    self.prog.append(g)
+    return g
+
   def gen_func(self, name):
     """Injectible functional predicate F(a, b) = expr."""
     r = self.r
@@ -714,6 +741,8 @@ class Gen:
       self.gen_facts('T%d' % i)
     if self.p('func_calls'):
       self.gen_func('F0')
+    if self.p('table_funcs'):
+      self.gen_table_func('G0')
     k = 0
     for i in range(r.choice([1, 2, 3, 4])):
       d = self.gen_derived('D%d' % k)
